@@ -26,5 +26,5 @@ c_PropNames == {"p1"}
 c_PropVals == {"v1", "v2"}
 c_Forbidden == {}
 c_ObjListsBig == {<<A>>, <<B, A>>}
-c_TypeSetBig == {"Int32"}
+c_TypeSetBig == {"TimeStamp"}
 ====
